@@ -33,25 +33,37 @@ RULE = ("generated histories of solver-API calls (add_assertion with formulas ov
         "push(n>1); distinct by history")
 
 REFSOLVER = ["/venv/bin/python", "-B", "-S", os.path.join(ROOT, "vf", "refsolver.py")]
-CFG = Cfg(max_depth=3, theories={"bool", "bv", "sort"}, bv_widths=[1, 2, 3], sorts=["S1"], nsyms=3, share=25,
+CFG = Cfg(max_depth=3, theories={"bool", "bv", "sort", "uf"}, bv_widths=[1, 2, 3], sorts=["S1"], nsyms=3, share=25,
           quant_types=[BOOL])
+CFG_NOUF = Cfg(max_depth=3, theories={"bool", "bv", "sort"}, bv_widths=[1, 2, 3], sorts=["S1"], nsyms=3, share=25,
+               quant_types=[BOOL])
 CARD = 2
 
 
+class RefUnknown(Exception):
+    """The brute-force reference gave up (search budget): the case is inconclusive."""
+
+
+def _domain(t):
+    return [False, True] if t == BOOL else list(range(1 << t[1])) if t[0] == "BV" else list(range(CARD)) if t[0] == "Sort" else None
+
+
 def brute(forms):
-    """-> True/False: satisfiability of blueprints over the finite domains."""
-    syms = set()
-    for b in forms:
-        syms |= reffv(b)
-    syms = sorted(syms, key=repr)
-    doms = []
-    for (n, t) in syms:
-        doms.append([False, True] if t == BOOL else list(range(1 << t[1])) if t[0] == "BV" else list(range(CARD)))
-    for combo in itertools.product(*doms):
-        I = {n: v for (n, _), v in zip(syms, combo)}
-        if all(Evaluator(I, {"S1": CARD}).eval(b) for b in forms):
-            return True
-    return False
+    """-> True/False: satisfiability of blueprints over the finite domains (function graphs decided lazily)."""
+    from vf.funsearch import find_model
+    verdict, _ = find_model(forms, {"S1": CARD}, _domain)
+    if verdict == "unknown":
+        raise RefUnknown()
+    return verdict == "sat"
+
+
+def logged_model(rec):
+    """The model the reference solver logged at a check-sat (function symbols as FunV)."""
+    from vf.refsem import FunV
+    m = rec.get("model")
+    if m is None:
+        return None
+    return {n: (FunV.from_json(v) if isinstance(v, dict) and "$fun" in v else v) for n, v in m.items()}
 
 
 def gen_history(rnd):
@@ -92,7 +104,7 @@ def gen_history(rnd):
         ops.append(("get_model",))
     shortcut = None
     if rnd.random() < 0.25:
-        shortcut = (rnd.choice(["is_sat", "is_valid", "is_unsat", "get_model"]), g.term(BOOL, 3))
+        shortcut = (rnd.choice(["is_sat", "is_valid", "is_unsat", "get_model"]), G(cfg=CFG_NOUF, rnd=rnd).term(BOOL, 3))
     return ops, shortcut
 
 
@@ -187,12 +199,17 @@ def check_history(run, ops, shortcut):
                         model = with_timeout(20, lambda: solver.get_model())
                         if len(frames) > 1:
                             nontriv = True
-                        logged = [r for r in read_log(log) if r["cmd"] == "(check-sat)"][-1]["model"]
+                        logged = logged_model([r for r in read_log(log) if r["cmd"] == "(check-sat)"][-1])
                         needed = set()
                         for a in live:
                             needed |= reffv(a)
                         I = {}
                         for (n, t) in sorted(needed, key=repr):
+                            if t[0] == "Fun":
+                                # SmtLibSolver.get_model() documents no function interpretations: the solver's own
+                                # graph is used to judge the values returned for the other symbols
+                                I[n] = logged[n] if logged is not None else None
+                                continue
                             s = pys.build(env, sym(n, t))
                             if s not in model:
                                 fail("model-incomplete", i, "get_model() has no value for %s, which occurs in the live assertions (model has %s)" % (
@@ -222,16 +239,23 @@ def check_history(run, ops, shortcut):
                         v = with_timeout(20, lambda: solver.get_value(f))
                         if len(frames) > 1:
                             nontriv = True
-                        logged = [r for r in read_log(log) if r["cmd"] == "(check-sat)"][-1]["model"]
+                        logged = logged_model([r for r in read_log(log) if r["cmd"] == "(check-sat)"][-1])
                         want = Evaluator(dict(logged), {"S1": CARD}).eval(b)
                         got = v.constant_value() if v.is_constant() else None
                         if got != want:
                             fail("value", i, "get_value(%s) returned %s, the solver's model gives %r" % (show(b), v, want))
                             return
+                except RefUnknown:
+                    run.discard("reference-unknown")
+                    return
                 except Timeout:
                     fail("blocked", i, "%s did not return within its budget (reply stream out of sync?)" % op[0])
                     return
                 except Exception as e:
+                    lg = read_log(log)
+                    if type(e).__name__ == "SolverReturnedUnknownResultError" and lg and lg[-1]["reply"] == "unknown":
+                        run.discard("reference-unknown")        # the process said unknown and pySMT relayed it
+                        return
                     fail("raised", i, "%s raised %s: %s" % (op[0], type(e).__name__, str(e)[:200]))
                     return
                 errs = [r for r in read_log(log) if r["reply"].startswith("(error")]
@@ -298,6 +322,8 @@ def check_history(run, ops, shortcut):
              sample={"history": [o[0] + (str(o[1]) if o[0] in ("push", "pop") else "") for o in ops]} if nontriv else None)
     for o in ops:
         run.cls("op:" + o[0])
+    if any(o[0] == "assert" and "FUNCTION" in B.ops_of(o[1]) for o in ops):
+        run.cls("uninterpreted-functions")
     if nontriv:
         run.cls("nontrivial-history")
 
